@@ -140,14 +140,14 @@ Section P.
     rewrite Hrun. clear Hrun.
     unfold do_set. rewrite (convert_content _ _ Hty). unfold spec_proxy_set, setter_error, getter_error, iname in *.
     destruct (if pd_sfall p then bh_sfail bh (id_name (in_desc i)) (pd_name p) v else None) as [[e m]|] eqn:Es.
-    { cbn. repeat split. intros vals H. inversion H. reflexivity. }
+    { cbn. repeat split; try (intros vals H; inversion H; reflexivity). }
     unfold eff_emits in *. destruct (readable p) eqn:Rp.
-    2:{ cbn. repeat split. intros vals H. now inversion H. }
-    destruct (pd_emits p) eqn:Em; try (cbn; repeat split; intros vals H; now inversion H).
+    2:{ cbn. repeat split; try (intros vals H; inversion H; reflexivity). }
+    destruct (pd_emits p) eqn:Em; try (cbn; repeat split; try (intros vals H; inversion H; reflexivity); fail).
     unfold run_getter. cbn [in_vals in_desc in_tag]. rewrite get_set_same. unfold iname. cbn [in_desc].
     destruct (if pd_gfall p then bh_gfail bh (id_name (in_desc i)) (pd_name p) v else None) as [[e m]|] eqn:Eg.
     { exfalso. apply Hcl. repeat split; congruence. }
-    cbn. repeat split. intros vals H. now inversion H.
+    cbn. repeat split; try (intros vals H; inversion H; reflexivity).
   Qed.
 
   (* ================================================================ signals *)
